@@ -2,6 +2,7 @@ package c06
 
 import (
 	"bytes"
+	"database/sql"
 	"crypto/tls"
 	"encoding/base64"
 	"encoding/json"
@@ -23,6 +24,7 @@ import (
 	"Havoc/pkg/verifhook"
 
 	"github.com/gorilla/websocket"
+	_ "github.com/mattn/go-sqlite3"
 
 	"verifh/demon"
 	"verifh/observe"
@@ -66,13 +68,21 @@ type child struct {
 	tokN      int
 	allKeys   []string // base64 AES keys of every agent registered (frames carrying them carry keys)
 
-	cur atomic.Pointer[caseRun]
+	cur   atomic.Pointer[caseRun]
+	storm atomic.Bool
 
 	authed    int // operator connections the harness has authenticated and not yet closed
 	aliceScan int
 	dbPath    string
 	loot      string
 	wedged    bool
+
+	dbv      *sql.DB
+	dbVer    int64
+	dbCached bool
+	dbA      []string
+	dbL      []string
+	dbLi     []string
 }
 
 type probe struct {
@@ -139,11 +149,16 @@ func childMain(jobPath string) int {
 	for i := range job.Cases {
 		sp := &job.Cases[i]
 		var restart bool
-		if sp.EP == "svc" {
+		t0 := time.Now()
+		switch sp.EP {
+		case "svc":
 			restart = ch.runSvc(sp)
-		} else {
+		case "storm":
+			restart = ch.runStorm(sp)
+		default:
 			restart = ch.runOp(sp)
 		}
+		rec.Observe("ms:case:"+sp.EP, time.Since(t0).Milliseconds())
 		ch.longLivedCheck(sp)
 		if restart {
 			rec.Exit("restart", sp.ID+1)
@@ -165,6 +180,8 @@ func (ch *child) hits() {
 }
 
 func (ch *child) setup() error {
+	t0 := time.Now()
+	defer func() { ch.rec.Observe("ms:setup", time.Since(t0).Milliseconds()) }()
 	r, err := rig.New(rig.Options{Full: true, Service: true})
 	if err != nil {
 		return err
@@ -204,6 +221,9 @@ func (ch *child) setup() error {
 	}); err != nil {
 		return fmt.Errorf("keep listener: %w", err)
 	}
+	if err := ch.barrier(nil, ""); err != nil {
+		return fmt.Errorf("setup barrier: %w", err)
+	}
 	if ch.silent, err = ch.dial(); err != nil {
 		return err
 	}
@@ -218,6 +238,8 @@ func (ch *child) setup() error {
 
 func (ch *child) dial() (*probe, error) {
 	p := &probe{}
+	t0 := time.Now()
+	defer func() { ch.rec.Observe("ms:dial", time.Since(t0).Milliseconds()) }()
 	cl, err := opclient.Dial(ch.addr, func(network, a string) (net.Conn, error) {
 		c, err := net.DialTimeout(network, a, 10*time.Second)
 		p.raw = c
@@ -279,8 +301,11 @@ func (ch *child) chat(cr *caseRun, phase string) error {
 
 // barrier: a second event from the same broadcasting goroutine; once the observer has it,
 // every write of the previous broadcast to every stored connection has been issued.
-func (ch *child) barrier() error {
+func (ch *child) barrier(cr *caseRun, phase string) error {
 	tok := ch.newTok("hb")
+	if cr != nil {
+		cr.addTok(tok, phase)
+	}
 	if err := ch.alice.Chat(tok); err != nil {
 		return err
 	}
@@ -388,9 +413,11 @@ func (ch *child) listenerCycle(cr *caseRun, phase string) error {
 
 func (ch *child) bcast(kind string, cr *caseRun, phase string) error {
 	var err error
+	t0 := time.Now()
+	defer func() { ch.rec.Observe("ms:bcast:"+kind, time.Since(t0).Milliseconds()) }()
 	switch kind {
 	case "":
-		return nil
+		// no event of its own: only the barrier chat below
 	case "chat":
 		err = ch.chat(cr, phase)
 	case "agent":
@@ -403,7 +430,7 @@ func (ch *child) bcast(kind string, cr *caseRun, phase string) error {
 	if err != nil {
 		return err
 	}
-	return ch.barrier()
+	return ch.barrier(cr, phase)
 }
 
 // ---------------------------------------------------------------------------------------
@@ -421,14 +448,34 @@ type snap struct {
 
 func (ch *child) snapshot() snap {
 	var s snap
-	s.Obs = observe.Snapshot(ch.ts, ch.dbPath, ch.loot)
-	mark := []byte(ch.tokPrefix + "-hb")
+	t0 := time.Now()
+	defer func() { ch.rec.Observe("ms:snapshot", time.Since(t0).Milliseconds()) }()
+	s.Obs = observe.Snapshot(ch.ts, "", "")
+	t1 := time.Now()
+	s.Obs.DBAgents, s.Obs.DBLinks, s.Obs.DBListen = ch.dbRows()
+	t2 := time.Now()
+	s.Obs.Loot = observe.FSSnap(ch.loot)
+	t3 := time.Now()
+	ch.rec.Observe("us:snap:mem", t1.Sub(t0).Microseconds())
+	ch.rec.Observe("us:snap:db", t2.Sub(t1).Microseconds())
+	ch.rec.Observe("us:snap:loot", t3.Sub(t2).Microseconds())
+	defer func() { ch.rec.Observe("us:snap:rest", time.Since(t3).Microseconds()) }()
+	mark := ch.tokPrefix + "-hb"
 	for _, e := range ch.ts.EventsList {
-		b, _ := json.Marshal(e.Body.Info)
-		if bytes.Contains(b, mark) {
+		// events caused by the harness's own broadcasts carry a harness token in a
+		// top-level string of Info (chat message, command line, listener name)
+		own := false
+		for _, v := range e.Body.Info {
+			if sv, ok := v.(string); ok && strings.Contains(sv, mark) {
+				own = true
+				break
+			}
+		}
+		if own {
 			s.Harness++
 			continue
 		}
+		b, _ := json.Marshal(e.Body.Info)
 		if len(b) > 160 {
 			b = append(b[:160:160], []byte(fmt.Sprintf("…(%d)", len(b)))...)
 		}
@@ -453,6 +500,41 @@ func (ch *child) snapshot() snap {
 		return true
 	})
 	return s
+}
+
+// dbRows reads the three tables through an independent read-only connection, but only when
+// the database has been written since the last read: PRAGMA data_version on a kept
+// connection changes whenever another connection (the teamserver's) commits.
+func (ch *child) dbRows() (a, l, li []string) {
+	if ch.dbv == nil {
+		if db, err := sql.Open("sqlite3", "file:"+ch.dbPath+"?mode=ro&_busy_timeout=5000"); err == nil {
+			db.SetMaxOpenConns(1)
+			db.SetMaxIdleConns(1)
+			db.SetConnMaxLifetime(0)
+			ch.dbv = db
+		}
+	}
+	ver := int64(-1)
+	if ch.dbv != nil {
+		if err := ch.dbv.QueryRow("PRAGMA data_version").Scan(&ver); err != nil {
+			ver = -1
+		}
+	}
+	if ver >= 0 && ch.dbCached && ver == ch.dbVer {
+		ch.rec.Observe("db_reads_skipped_unchanged", 1)
+		return ch.dbA, ch.dbL, ch.dbLi
+	}
+	a, _ = observe.DBRows(ch.dbPath, "TS_Agents", "LastCallIn", "FirstCallIn")
+	l, _ = observe.DBRows(ch.dbPath, "TS_Links")
+	li, _ = observe.DBRows(ch.dbPath, "TS_Listeners")
+	// re-read the version after the rows: if it moved meanwhile the cache is not trusted
+	ver2 := int64(-2)
+	if ch.dbv != nil {
+		ch.dbv.QueryRow("PRAGMA data_version").Scan(&ver2)
+	}
+	ch.dbCached = ver >= 0 && ver == ver2
+	ch.dbVer, ch.dbA, ch.dbL, ch.dbLi = ver, a, l, li
+	return
 }
 
 // diff returns "" or the first class of difference and a description.
@@ -509,6 +591,11 @@ func tailDiff(a, b []string) []string {
 func (ch *child) firstReadHook() {
 	cr := ch.cur.Load()
 	if cr == nil {
+		if ch.storm.Load() {
+			// concurrent phase: keep the window between first read and verdict open for a
+			// moment while broadcasts are flowing
+			time.Sleep(3 * time.Millisecond)
+		}
 		return
 	}
 	cr.hookOnce.Do(func() {
@@ -546,7 +633,8 @@ func short(b []byte) string {
 	return string(b)
 }
 
-func (ch *child) frameKind(cr *caseRun, raw []byte) (kind, phase string, keys bool) {
+func (ch *child) frameKind(cr *caseRun, f opclient.Frame) (kind, phase string, keys bool) {
+	raw := f.Raw
 	for _, k := range ch.allKeys {
 		if bytes.Contains(raw, []byte(k)) {
 			keys = true
@@ -561,7 +649,16 @@ func (ch *child) frameKind(cr *caseRun, raw []byte) (kind, phase string, keys bo
 			}
 		}
 	}
-	return "replay", "", keys
+	// "replay" only on positive evidence that the frame is an older event: a harness token
+	// or agent key of an earlier case, the set-up listeners, the profile event, user
+	// connect/disconnect notices. Everything else was broadcast while the case ran.
+	switch {
+	case bytes.Contains(raw, []byte(ch.tokPrefix)), keys, bytes.Contains(raw, []byte("c06-http")):
+		return "replay", "", keys
+	case f.Head.Event == opclient.EvTS, f.Head.Event == opclient.EvChat && (f.Body.SubEvent == opclient.ChatNewUser || f.Body.SubEvent == opclient.ChatUserDisc):
+		return "replay", "", keys
+	}
+	return "live", "", keys
 }
 
 // checkProbe classifies everything p has received since the last call. checkpoint is the
@@ -586,7 +683,7 @@ func (ch *child) checkProbe(cr *caseRun, p *probe, checkpoint string) {
 				map[string]any{"spec": cr.sp, "frame": short(f.Raw), "checkpoint": checkpoint})
 			continue
 		}
-		kind, phase, keys := ch.frameKind(cr, f.Raw)
+		kind, phase, keys := ch.frameKind(cr, f)
 		state := checkpoint
 		switch phase {
 		case "pre":
@@ -640,7 +737,7 @@ func (ch *child) longLivedCheck(sp *Spec) {
 		}
 		for ; p.reported < len(frames); p.reported++ {
 			f := frames[p.reported]
-			_, _, keys := ch.frameKind(nil, f.Raw)
+			_, _, keys := ch.frameKind(nil, f)
 			what := fmt.Sprintf("a long-lived connection that never authenticated (state %s) received event %d/%d", state, f.Head.Event, f.Body.SubEvent)
 			if keys {
 				what += " carrying an agent's AES key"
@@ -673,7 +770,14 @@ func (ch *child) scanObserver(cr *caseRun, fuToks []string) {
 
 func (ch *child) wedge(sp *Spec, where string, err error) bool {
 	if errors.Is(err, errWedge) {
-		held := observe.HeldClientLocks(ch.ts, 300*time.Millisecond)
+		// a mutex that is still held after three more seconds without a single moment of
+		// being free is not a slow write on a loaded machine
+		held := observe.HeldClientLocks(ch.ts, 3*time.Second)
+		if len(held) == 0 {
+			ch.rec.Inconclusive(fmt.Sprintf("case %d (%s): %s: broadcast slow, client mutex free again after a while", sp.ID, sp.Class, where))
+			ch.wedged = true
+			return true
+		}
 		unauth := 0
 		ch.ts.Clients.Range(func(k, v any) bool {
 			c := v.(*server.Client)
@@ -794,15 +898,18 @@ func (ch *child) runOp(sp *Spec) (restart bool) {
 		return ch.wedge(sp, "pre-handshake "+sp.PreK, err)
 	}
 	ch.checkProbe(cr, p, "silent")
-	S0 := ch.snapshot()
-	authed0 := S0.Authed
-	if authed0 != ch.authed {
-		ch.rec.Violation("state:authenticated-without-login", fmt.Sprintf("%d stored connections are marked authenticated, the harness has logged in %d", authed0, ch.authed), map[string]any{"spec": sp, "when": "before first message"})
+	// baseline: taken inside the server (ws.first_read hook, after the in-window broadcast)
+	// when a complete message is sent, otherwise here
+	var S0 snap
+	haveS0 := false
+	if sp.Conn != "msg" {
+		S0, haveS0 = ch.snapshot(), true
 	}
 
 	// phase 2: the first message; ws.first_read fires inside the server
 	ch.cur.Store(cr)
 	ch.rec.Cur(sp, "first-message", msg)
+	tSend := time.Now()
 	cr.sent = ch.sendFirst(sp, p, msg)
 	verdict := "none"
 	if cr.sent {
@@ -818,6 +925,7 @@ func (ch *child) runOp(sp *Spec) (restart bool) {
 		time.Sleep(20 * time.Millisecond)
 	}
 	ch.cur.Store(nil)
+	ch.rec.Observe("ms:send-to-verdict", time.Since(tSend).Milliseconds())
 	cr.mu.Lock()
 	hookHit, hookErr, hookS0 := cr.hookHit, cr.hookErr, cr.hookS0
 	cr.mu.Unlock()
@@ -827,8 +935,11 @@ func (ch *child) runOp(sp *Spec) (restart bool) {
 	if hookHit {
 		ch.rec.Observe("first_read_windows", 1)
 		if hookS0 != nil {
-			S0 = *hookS0
+			S0, haveS0 = *hookS0, true
 		}
+	}
+	if haveS0 && S0.Authed != ch.authed {
+		ch.rec.Violation("state:authenticated-without-login", fmt.Sprintf("%d stored connections are marked authenticated before the verdict on the first message, the harness has logged in %d", S0.Authed, ch.authed), map[string]any{"spec": sp})
 	}
 	if verdict == "frame" && sp.Expect != "accept" {
 		// let a close that follows the error frame register
@@ -872,11 +983,16 @@ func (ch *child) runOp(sp *Spec) (restart bool) {
 	}
 
 	if cr.accepted {
-		return ch.finishAccepted(sp, cr, p)
+		ch.authed++
+		return ch.finishAccepted(sp, cr, p, true)
 	}
 
 	// rejected (or nothing sent): state must be what it was
 	S1 := ch.snapshot()
+	if !haveS0 {
+		ch.rec.Observe("no_baseline_snapshot", 1)
+		S0 = S1
+	}
 	if k, what := snapDiff(S0, S1, true); k != "" {
 		ch.rec.Violation("state:"+k+":handshake", fmt.Sprintf("class %q: a handshake that did not authenticate changed teamserver state: %s", sp.Class, what), map[string]any{"spec": sp, "message": short(msg), "diff": what})
 	}
@@ -885,8 +1001,16 @@ func (ch *child) runOp(sp *Spec) (restart bool) {
 	}
 
 	// phase 3: broadcasts after the rejection
+	// (always at least two events: an entry whose write fails blocks the one after it)
 	if err := ch.bcast(sp.PostK, cr, "post"); err != nil {
 		return ch.wedge(sp, "post-rejection "+sp.PostK, err)
+	}
+	// (the first write to a dead stored connection fails, the second blocks - possibly after
+	// the observer has been served -, the third is never read)
+	for i := 0; i < 2; i++ {
+		if err := ch.barrier(cr, "post"); err != nil {
+			return ch.wedge(sp, "post-rejection follow-on broadcast", err)
+		}
 	}
 	state := "rejected"
 	if !cr.sent {
@@ -896,7 +1020,10 @@ func (ch *child) runOp(sp *Spec) (restart bool) {
 
 	// follow-up messages on the unauthenticated socket
 	if len(sp.Follow) > 0 && !p.cl.Closed() && sp.Conn != "partial" {
-		S2 := ch.snapshot()
+		S2 := S1
+		if sp.PostK != "" && sp.PostK != "chat" {
+			S2 = ch.snapshot()
+		}
 		var toks []string
 		nsent := 0
 		for _, k := range sp.Follow {
@@ -908,16 +1035,20 @@ func (ch *child) runOp(sp *Spec) (restart bool) {
 			if p.cl.SendRaw(fm) == nil {
 				nsent++
 				ch.rec.Observe("followup:"+k, 1)
+				// on a connection that has said nothing so far this is the first message:
+				// one error frame is the expected answer from here on
+				cr.sent = true
+				state = "rejected"
 			}
 		}
 		if nsent > 0 {
 			// two round trips through the server, then a short settle: whatever a
 			// dispatching server would have done with the follow-ups is visible now
-			if err := ch.barrier(); err != nil {
+			if err := ch.barrier(cr, "fu"); err != nil {
 				return ch.wedge(sp, "after follow-ups", err)
 			}
 			time.Sleep(25 * time.Millisecond)
-			if err := ch.barrier(); err != nil {
+			if err := ch.barrier(cr, "fu"); err != nil {
 				return ch.wedge(sp, "after follow-ups", err)
 			}
 			S3 := ch.snapshot()
@@ -950,12 +1081,16 @@ func min(a, b int) int {
 // finishAccepted: the connection authenticated (legitimately or not): it must now work as
 // an operator connection (positive control), then it is closed and the harness waits until
 // the server has dropped it.
-func (ch *child) finishAccepted(sp *Spec, cr *caseRun, p *probe) bool {
-	ch.authed++
+func (ch *child) finishAccepted(sp *Spec, cr *caseRun, p *probe, emitDone bool) bool {
+	t0 := time.Now()
+	defer func() { ch.rec.Observe("ms:finish-accepted", time.Since(t0).Milliseconds()) }()
 	// frames before the Success frame were classified by checkProbe; after it the replay
 	// and live events are legitimate. Positive control: it receives the next broadcast.
+	// It sends a chat message itself: the server reads it only after the replay has been
+	// written completely, so once it comes back the connection is in its dispatch loop.
 	tok := ch.newTok("hb")
-	if err := ch.alice.Chat(tok); err == nil {
+	p.cl.User = sp.User
+	if err := p.cl.Chat(tok); err == nil {
 		if err := ch.waitAlice(rawHas(tok)); err != nil {
 			return ch.wedge(sp, "after accepted login", err)
 		}
@@ -999,11 +1134,13 @@ func (ch *child) finishAccepted(sp *Spec, cr *caseRun, p *probe) bool {
 		}
 		time.Sleep(5 * time.Millisecond)
 	}
-	if err := ch.barrier(); err != nil {
+	if err := ch.barrier(nil, ""); err != nil {
 		return ch.wedge(sp, "after closing accepted connection", err)
 	}
 	ch.aliceScan = ch.alice.Count()
-	ch.rec.Done(sp, map[string]any{"class": sp.Class, "expect": sp.Expect, "outcome": "authenticated", "frames": p.cl.Count()})
+	if emitDone {
+		ch.rec.Done(sp, map[string]any{"class": sp.Class, "expect": sp.Expect, "outcome": "authenticated", "frames": p.cl.Count()})
+	}
 	return false
 }
 
